@@ -27,7 +27,12 @@ type smtSession struct {
 }
 
 func startSession(query string) (*smtSession, string, error) {
-	cmd := exec.Command("z3-new", "-in", "-T:20")
+	return startSessionWith(query, "z3-new", "-in", "-T:60")
+}
+
+// startSessionWith starts a model session with the given solver command line.
+func startSessionWith(query string, argv ...string) (*smtSession, string, error) {
+	cmd := exec.Command(argv[0], argv[1:]...)
 	in, _ := cmd.StdinPipe()
 	outp, _ := cmd.StdoutPipe()
 	cmd.Stderr = cmd.Stdout
@@ -554,7 +559,27 @@ func (r *Runner) replayObligation(prop string, o *Obligation) (*ReplayRecord, st
 		}
 	}
 	if o.Status == "sat" {
-		sess, first, err = startSession(o.QueryWith(true, o.byteAxioms()))
+		// ask the solver that found the obligation satisfiable first, then the others
+		cmds := [][]string{{"z3-new", "-in", "-T:60"}, {"z3-new", "-in", "-T:60", "auto_config=false"}, {"z3", "-in", "-T:60"}}
+		if strings.HasPrefix(o.Solver, "z3-4") {
+			cmds = [][]string{cmds[2], cmds[0], cmds[1]}
+		} else if strings.Contains(o.Solver, "auto_config") {
+			cmds = [][]string{cmds[1], cmds[0], cmds[2]}
+		}
+		q := o.QueryWith(true, o.byteAxioms())
+		for _, c := range cmds {
+			sess, first, err = startSessionWith(q, c...)
+			if err == nil && strings.TrimSpace(first) == "sat" {
+				break
+			}
+			if sess != nil {
+				sess.close()
+				sess = nil
+			}
+		}
+		if sess == nil {
+			first, err = "timeout", nil
+		}
 	} else {
 		// the solver could not decide the full query (quantified hypotheses): look for a candidate
 		// model with the quantified hypotheses dropped; it is trusted only if it replays
@@ -567,6 +592,15 @@ func (r *Runner) replayObligation(prop string, o *Obligation) (*ReplayRecord, st
 			sess.close()
 		}
 		sess, first, err = startSession(o.queryOpts(true, nil, o.Status != "sat"))
+	}
+	if (err != nil || strings.TrimSpace(first) != "sat") && o.Status == "sat" {
+		// no model of the full query within the budget: a candidate without the quantified hypotheses
+		if sess != nil {
+			sess.close()
+		}
+		sess, first, err = startSession(o.queryOpts(true, nil, true))
+		rec.SolverOut += "\n(model search with quantified hypotheses dropped: candidate only)"
+		candidate = true
 	}
 	if err != nil || strings.TrimSpace(first) != "sat" {
 		rec.Verdict = "no-model"
